@@ -46,7 +46,21 @@ RULE = (
     "is_many sequences, TypedDicts sharing keys, callables differing only in the described callable, annotated "
     "unions, free/bounded/constrained type variables, raw nested unions; + seeded random values) is used in all "
     "unary cases x all maps, all ordered pairs x all maps, all ordered triples; then random triples of depth<=3 "
-    "values with random maps. Non-trivial = case with >=2 distinct operand specs, >=1 non-literal operand and a "
+    "values with random maps. Nesting matrix (enumerated, no rng): every slot of every constructor that holds a Value "
+    "(Generic args, Sequence members incl. is_many, KVPair key/value, TypedDict items/extra_keys, SigParameter "
+    "annotation of each kind po/pk/*args/ko/**kwargs, Signature return, Concatenate[..,P]/`...`/overloaded signatures, "
+    "Annotated value/metadata, TypeGuard/TypeIs/ParameterTypeGuard/NoReturnGuard/HasAttr/HasAttrGuard extensions, "
+    "Type[...] (+exactly), union members, TypeAlias type_arguments, AsyncTask value, bound-method composite) x every "
+    "constructor placed in it with a type variable at the leaf (35 inner shapes incl. Type[List[T]], type[tuple[T,int]]), "
+    "and slot x slot x {T, list[T]} (thorough: x all inner shapes); each x 19 maps (replacement values of every "
+    "constructor, ParamSpec bound to a callable / Any / another ParamSpec) through the unary laws incl. "
+    "substitution-completeness (walk_values AND an independent walk over dataclass fields) and substitution-by-parts "
+    "(subst(C(x..)) == C(subst(x)..), Type[X].subst(m) == Type[X.subst(m)]), and paired with set[T]/int/T for "
+    "subst-commutes-with-unite. Neighbour groups: the same parameters / keys / pairs / metadata in another order or "
+    "with other flags - all ordered pairs and triples. The random grammar is the wide one (vp.valuegen.random_spec "
+    "wide=True: Type[...] over every TypedValue subclass, aliases, async tasks, bound methods, overloaded/ParamSpec "
+    "callables with several parameters per kind, all guard extensions; maps may bind P). "
+    "Non-trivial = case with >=2 distinct operand specs, >=1 non-literal operand and a "
     "law whose two sides come from different call sequences (commutative/associative/subst-commutes); distinct by "
     "operand specs. In-situ: each real call of unite_values made while checking ~100 (quick) / ~450 (thorough) "
     "test-suite programs is one contract evaluation."
@@ -69,6 +83,16 @@ ASSUMPTIONS = [
     "which type variables occur in a generated value is known by construction (vp.valuegen.spec_typevars), "
     "not from walk_values()",
     "Checker() with default options is the CanAssignContext",
+    "a ParamSpec is bound only to what Signature.substitute_typevars accepts (a plain callable whose parameters are "
+    "spliced in, Any, another ParamSpec); a Concatenate-style callable has only required positional-only parameters "
+    "before its ParamSpec; the type parameters of a generated type alias are never in a map's domain",
+    "a bound-method value is never built over a literal that is not == itself (stacked_scopes.Composite.__eq__ "
+    "applies a bare == to the value it holds, no identity shortcut)",
+    "substitution-by-parts compares subst(a, m) with a's constructor applied to pyanalyze's substitution of a's direct "
+    "parts; where the raw constructor is not closed under substitution the documented smart constructor is the "
+    "reference (SubclassValue.make, annotate_value, unite_values); not evaluated when a bound ParamSpec's parameters "
+    "are spliced, when Signature.make would expand a substituted *args/**kwargs annotation, or when a is not == a "
+    "rebuilt copy of itself; a result that fails completeness is reported once (completeness), not twice",
 ]
 FLOORS = {
     "quick": {
@@ -76,6 +100,8 @@ FLOORS = {
         "unary_cases": 30000, "law_evaluations": 2600000, "random_cases": 10000, "subst_changed": 8000,
         "subst_identity_checked": 50000, "subst_commutes_checked": 50000, "eq_pairs_hash_checked": 600000,
         "accepts_true": 200000, "insitu_contract_evaluations": 1500, "insitu_programs": 55,
+        "nesting_cases": 1700, "nesting_pair_cases": 1700, "neighbour_pair_cases": 100, "subst_by_parts_checked": 30000,
+        "subst_under_type_of_container": 1500,
     },
     "thorough": {
         "distinct_nontrivial": 550000, "evaluations": 550000, "ternary_cases": 550000, "binary_cases": 150000,
@@ -161,14 +187,30 @@ def multiset_eq(xs, ys) -> bool:
 _SKIP_FIELDS = {"typevars_of_params", "all_typevars"}
 
 
+_FIELD_NAMES = {}
+
+
+def _field_names(cls):
+    names = _FIELD_NAMES.get(cls)
+    if names is None:
+        if dataclasses.is_dataclass(cls):
+            names = tuple(
+                f.name for f in dataclasses.fields(cls) if not f.name.startswith("_") and f.name not in _SKIP_FIELDS
+            )
+        else:
+            names = False
+        _FIELD_NAMES[cls] = names
+    return names
+
+
 def _fields(obj):
-    if dataclasses.is_dataclass(obj) and not isinstance(obj, type):
-        return [
-            (f.name, getattr(obj, f.name, None))
-            for f in dataclasses.fields(obj)
-            if not f.name.startswith("_") and f.name not in _SKIP_FIELDS
-        ]
-    return None
+    """[(field name, value)] of a dataclass instance (public fields), None for anything else."""
+    if isinstance(obj, type):
+        return None
+    names = _field_names(type(obj))
+    if names is False:
+        return None
+    return [(name, getattr(obj, name, None)) for name in names]
 
 
 def neq_bad(u, v) -> bool:
@@ -514,6 +556,7 @@ def laws_unary(a, spec, maps, rec, st, builder=None) -> None:
         st.histo("twin_not_equal", type(a).__name__)
     # substitution
     tvs = vg.spec_typevars(spec)
+    below = holders_of_typevars(spec)
     # substitution rebuilds nested values, so for subst(a, m) == a every union *inside* a must be normal too
     subst_id_ok = normal and not deep_non_normal(a)
     if normal and not subst_id_ok:
@@ -534,7 +577,12 @@ def laws_unary(a, spec, maps, rec, st, builder=None) -> None:
                 check_eq_hash(r, a, rec, st, "subst(a,m), a", mspec)
         elif tvs & dom:
             st.count("subst_changed")
-        complete = check_subst_complete(r, m, rec, st, f"subst({a}, m)", mspec)
+            for holder, names in below.items():
+                if names & dom:
+                    st.histo("subst_of_variable_held_by", holder)
+                    if holder == "Subclass(container)":
+                        st.count("subst_under_type_of_container")
+        complete = check_subst_complete(r, m, rec, st, lambda: f"subst({a}, m)", mspec)
         # a result that still mentions a variable differs from the reference for that very reason: one report
         if builder is not None and (tvs & dom) and complete:
             check_subst_by_parts(builder, a, spec, r, mspec, m, rec, st)
@@ -600,7 +648,11 @@ def subst_culprit(node, m, depth: int = 0) -> str:
     return type(node).__name__
 
 
-def check_subst_complete(r, m, rec, st, what: str, ms=None) -> bool:
+def _text(what) -> str:
+    return what() if callable(what) else what
+
+
+def check_subst_complete(r, m, rec, st, what, ms=None) -> bool:
     """No variable of the map's domain may be reachable in r - neither by pyanalyze's walk_values() nor by an
     independent walk over the dataclass fields / tuples / dicts of the result.  Returns whether that holds."""
     leftover = None
@@ -611,17 +663,34 @@ def check_subst_complete(r, m, rec, st, what: str, ms=None) -> bool:
                 leftover = w
                 break
     except Exception as e:  # noqa: BLE001
-        rec("walk-raises", type(e).__name__, f"walk_values of {what} raised {e!r}", ms)
+        rec("walk-raises", type(e).__name__, lambda: f"walk_values of {_text(what)} raised {e!r}", ms)
         return True
     if leftover is not None or find_typevar_holder(r, m) is not None:
         rec(
             "subst-complete",
             f"not substituted by {subst_culprit(r, m)}",
-            f"{what} = {r} still mentions a substituted variable",
+            lambda: f"{_text(what)} = {r} still mentions a substituted variable",
             ms,
         )
         return False
     return True
+
+
+def holders_of_typevars(spec) -> dict:
+    """constructor kind -> names of the type variables somewhere below a value of that kind inside `spec`.
+    Type[...] is split into Type[T] ("Subclass") and Type[<value mentioning T>] ("Subclass(container)")."""
+    out = {}
+    for s in vg.walk_spec(spec):
+        if not vg.children(s) and s[0] != "annotated":
+            continue
+        names = vg.spec_typevars(s)
+        if not names:
+            continue
+        kind = vg.skeleton(s, 1)
+        if s[0] == "subclass" and s[1][0] not in ("typevar", "paramspec"):
+            kind = "Subclass(container)"
+        out.setdefault(kind, set()).update(names)
+    return out
 
 
 def _splices_paramspec(spec, dom) -> bool:
@@ -644,6 +713,8 @@ def subst_by_parts(builder, a, spec, mspec, m):
         return None, "no-parts"
     if _splices_paramspec(spec, set(mspec)):
         return None, "paramspec-parameters-spliced"
+    if not eq(a, builder.build(spec)):
+        return None, "value-not-equal-to-a-rebuilt-copy"  # e.g. it holds a literal that is not == itself
     new = [builder.build(k).substitute_typevars(m) for k in kids]
     if kind == "subclass":
         return SubclassValue.make(new[0], exactly=bool(spec[2])), None
@@ -1187,13 +1258,17 @@ def shard(ctx) -> None:
             ops[rng.randrange(3)] = rng.choice(specs)
         if rng.random() < 0.15:
             ops[2] = ops[0]
+        rmaps = [vg.random_map_spec(rng, rng.choice([0, 1, 1, 2]), True), rng.choice(mapspecs)]
+        if any("method" in vg.spec_classes(s) for s in ops) or any("method" in vg.spec_classes(v) for ms in rmaps for v in ms.values()):
+            # a bound method compares the value it is bound to with a bare == (stacked_scopes.Composite.__eq__)
+            ops = [vg.without_flaky(s) for s in ops]
+            rmaps = [{name: vg.without_flaky(v) for name, v in ms.items()} for ms in rmaps]
         b = vg.Builder()
         try:
             vs = [b.build(s) for s in ops]
         except Exception as e:  # noqa: BLE001
             ctx.histo("generator_build_failed", type(e).__name__)
             continue
-        rmaps = [vg.random_map_spec(rng, rng.choice([0, 1, 1, 2]), True), rng.choice(mapspecs)]
         bm = [(ms, b.build_map(ms)) for ms in rmaps]
         for x in range(3):
             cur["ops"] = [ops[x]]
